@@ -286,6 +286,155 @@ func (e *daemonEngine) runDKGSteps(res *RunResult) {
 				return // the node now sits on an attacker's proposal: whatever follows is a consequence
 			}
 			continue
+		case "race":
+			// an operator command on one node and the leader's abort start within the same instants
+			if e.pendingLeader == nil {
+				continue
+			}
+			var follower *dNode
+			for _, i := range members {
+				if e.nodes[i] != e.pendingLeader && e.nodes[i].up {
+					follower = e.nodes[i]
+				}
+			}
+			if follower == nil {
+				continue
+			}
+			lead := e.pendingLeader
+			e.pendingLeader = nil
+			done := make(chan struct{}, 2)
+			go func() {
+				var c *pdkg.DKGCommand
+				if st.S == "reject" {
+					c = &pdkg.DKGCommand{Command: &pdkg.DKGCommand_Reject{Reject: &pdkg.RejectOptions{}}}
+				} else {
+					c = &pdkg.DKGCommand{Command: &pdkg.DKGCommand_Accept{Accept: &pdkg.AcceptOptions{}}}
+				}
+				_ = e.cmd(follower, id, c)
+				done <- struct{}{}
+			}()
+			go func() {
+				time.Sleep(time.Duration(st.A) * time.Microsecond)
+				_ = e.cmd(lead, id, &pdkg.DKGCommand{Command: &pdkg.DKGCommand_Abort{Abort: &pdkg.AbortOptions{}}})
+				done <- struct{}{}
+			}()
+			<-done
+			<-done
+			e.rec.Count("dkgstep:race-ran", 1)
+			time.Sleep(2 * time.Second)
+			continue
+		case "intercept":
+			// the attacker holds the victim's links while the leader proposes, takes the genuine proposal
+			// off the wire, changes it and is the first to hand it to the victim
+			if e.pendingLeader != nil || len(members) < 3 {
+				continue
+			}
+			lead := e.nodes[members[0]]
+			victim := e.nodes[members[len(members)-1]]
+			if !lead.up || !victim.up || victim == lead {
+				continue
+			}
+			var rest []string
+			for _, x := range e.nodes {
+				if x != victim {
+					rest = append(rest, x.addr)
+				}
+			}
+			e.w.Partition([]string{victim.addr}, rest)
+			bv := e.dkgSnapshot(victim)
+			opts := &pdkg.ProposalOptions{Timeout: timestamppb.New(future), Threshold: uint32(cc.epochs[len(cc.epochs)-1].group.Threshold), CatchupPeriodSeconds: uint32(e.sc.CatchupS)}
+			for _, i := range members {
+				opts.Remaining = append(opts.Remaining, e.participant(e.nodes[i], id))
+			}
+			go func() {
+				_ = e.cmd(lead, id, &pdkg.DKGCommand{Command: &pdkg.DKGCommand_Resharing{Resharing: opts}})
+			}()
+			time.Sleep(300 * time.Millisecond)
+			g := e.lastGenuine("proposal")
+			e.w.Heal()
+			if g == nil || g.GetProposal() == nil || g.GetProposal().Epoch != curEpoch+1 {
+				time.Sleep(8 * time.Second)
+				_ = e.cmd(lead, id, &pdkg.DKGCommand{Command: &pdkg.DKGCommand_Abort{Abort: &pdkg.AbortOptions{}}})
+				continue
+			}
+			p := g.GetProposal()
+			switch st.S {
+			case "move_remaining_to_leaving":
+				if n := len(p.Remaining); n >= 3 {
+					p.Leaving = append([]*pdkg.Participant{p.Remaining[n-1]}, p.Leaving...)
+					p.Remaining = p.Remaining[:n-1]
+				}
+			case "threshold":
+				p.Threshold++
+			case "timeout":
+				p.Timeout = timestamppb.New(p.Timeout.AsTime().Add(time.Hour))
+			case "catchup":
+				p.CatchupPeriodSeconds++
+			case "swap_remaining":
+				if n := len(p.Remaining); n >= 3 {
+					p.Remaining[n-1], p.Remaining[n-2] = p.Remaining[n-2], p.Remaining[n-1]
+				}
+			}
+			ferr := e.sendGossip(victim, g, "forge-intercept-"+st.S)
+			time.Sleep(200 * time.Millisecond)
+			av := e.dkgSnapshot(victim)
+			e.rec.Count("dkgstep:intercept-ran:"+st.S, 1)
+			if !bv.equal(av) {
+				// was it the genuine packet arriving first (the leader retries)? the stored terms tell
+				victim.mu.Lock()
+				ds := victim.dkgStore
+				victim.mu.Unlock()
+				cur, _ := ds.GetCurrent(id)
+				forgedTook := cur != nil && (int(cur.Threshold) != int(opts.Threshold) || len(cur.Leaving) != 0 || !cur.Timeout.Equal(opts.Timeout.AsTime()) ||
+					int(cur.CatchupPeriod.Seconds()) != int(opts.CatchupPeriodSeconds) || (len(cur.Remaining) == len(opts.Remaining) && cur.Remaining[len(cur.Remaining)-1].Address != opts.Remaining[len(opts.Remaining)-1].Address))
+				if forgedTook {
+					e.rec.Violate("C09", "unauthentic-packet-changed-state", "intercepted-proposal-"+st.S, "node %s applied a proposal whose terms (%s) are not the ones its leader signed (answer: %v)", victim.addr, st.S, ferr)
+					res.NonTrivial = true
+					return
+				}
+			}
+			time.Sleep(8 * time.Second)
+			_ = e.cmd(lead, id, &pdkg.DKGCommand{Command: &pdkg.DKGCommand_Abort{Abort: &pdkg.AbortOptions{}}})
+			time.Sleep(2 * time.Second)
+			continue
+		case "accept_after_reject":
+			// X rejects for real; then another member tells the leader that X accepts
+			if e.pendingLeader == nil || len(members) < 3 {
+				continue
+			}
+			lead := e.pendingLeader
+			var x, sgn *dNode
+			for _, i := range members {
+				if e.nodes[i] != lead && e.nodes[i].up {
+					if x == nil {
+						x = e.nodes[i]
+					} else if sgn == nil {
+						sgn = e.nodes[i]
+					}
+				}
+			}
+			p := e.lastGenuine("proposal")
+			if x == nil || sgn == nil || p == nil {
+				continue
+			}
+			if st.A%2 == 0 {
+				_ = e.cmd(x, id, &pdkg.DKGCommand{Command: &pdkg.DKGCommand_Reject{Reject: &pdkg.RejectOptions{}}})
+				time.Sleep(time.Second)
+			}
+			bl := e.dkgSnapshot(lead)
+			g := &pdkg.GossipPacket{Packet: &pdkg.GossipPacket_Accept{Accept: &pdkg.AcceptProposal{Acceptor: e.participant(x, id)}}}
+			msg := dkg.VerifMessageForSigning(id, g, p.GetProposal())
+			sig, _ := sgn.pairs[id].Scheme().AuthScheme.Sign(sgn.pairs[id].Key, msg)
+			g.Metadata = &pdkg.GossipMetadata{BeaconID: id, Address: sgn.addr, Signature: sig}
+			ferr := e.sendGossip(lead, g, "forge-accept-after-reject")
+			time.Sleep(500 * time.Millisecond)
+			e.rec.Count("dkgstep:accept_after_reject-ran", 1)
+			if al := e.dkgSnapshot(lead); !bl.equal(al) {
+				e.rec.Violate("C09", "unauthentic-packet-changed-state", "acceptance-sent-by-another-member", "leader %s changed its records on an acceptance for %s signed by %s (answer: %v)", lead.addr, x.addr, sgn.addr, ferr)
+				res.NonTrivial = true
+				return
+			}
+			continue
 		case "flow":
 			// clean up whatever is pending, then a complete valid resharing must go through
 			// whoever proposed something that is still pending withdraws it (only a proposal's leader can)
